@@ -130,7 +130,7 @@ def emit_fn(fn):
     body, n = X.r_refparam(body, sorted(refs)); note("R11_refparam", n)
     for nm in sorted(refs):   # address of a reference parameter is the pointer itself
         body, n = re.subn(r"&\s*" + re.escape(nm) + r"\b(?!\s*(->|\.|\[))", nm, body); note("R11_refparam_addr", n)
-    if fn.method:
+    if fn.method and "self" in fn.method:
         body, n = re.subn(r"\*\s*this\b", "(*self)", body); note("R11_this", n)
         body, n = re.subn(r"\bthis\b", "self", body); note("R11_this", n)
     body, n = X.r_members(body, fn.members); note("R11_member", n)
@@ -148,7 +148,8 @@ def emit_fn(fn):
         params.append(fn.method)
     for ty, nm in zip(ptypes, pnames):
         params.append("%s %s" % (ty.replace("/*ref*/ ", ""), nm))
-    cnames = (["self"] if fn.method else []) + pnames
+    mnames = [re.search(r"([A-Za-z_]\w*)\s*$", part.strip()).group(1) for part in fn.method.split(",")] if fn.method else []
+    cnames = mnames + pnames
     out = []
     out.append("/* ---- %s : %s:%d-%d sha256=%s ---- */" % (fn.key, loc.file, loc.line0, loc.line1, loc.sha256[:16]))
     for _, mangled, decl in hoisted:
